@@ -9,13 +9,13 @@ COMMON_ASSUME = [
 PROPS = {
     "C01": {
         "generators": [{"name": "C01"}],
-        "explanation": "Theorems: every API call on every invariant state answers from / updates the abstract contents as a plain map (flat index); the bucket chains implement lookup/insert/delete/split for arbitrary hashes and split policy; refinement chain -> flat and the run theorems over all op sequences incl. Compact (DBSim.v, DBRun.v). Tie: every call of seeded histories on engineered colliding key sets compared with the extracted model (both index instantiations, physical chain walk included) and a reference map; the Coq invariant is evaluated on every reached state.",
+        "explanation": "Theorems: every API call on every invariant state answers from / updates the abstract contents as a plain map (flat index); the bucket chains implement lookup/insert/delete/split for arbitrary hashes and split policy; refinement chain -> flat and the run theorems over all op sequences incl. Compact (DBSim.v, DBRun.v); the PHYSICAL index (Phys.v: bucket files addressed by offset, overflow allocation, free list) simulates the chains exactly and keeps its invariant (no shared / leaked / dangling overflow bucket), lifted to the whole database (DBSimExact.v, PhysDB.v); the integer code of bucketIndex, the split-pointer advance, bucketOffset, the rollover test and the DeletedBytes bookkeeping as TRANSLATED from the sources equals the model's for all values (gen/Funcs.v, Funcs*Check.v). Tie: every call of seeded histories on engineered colliding key sets (incl. chains longer than two buckets at a split) compared with the extracted model in three index instantiations; for the physical one the BYTES of main.pix / overflow.pix and the free list are compared; reference map; Coq invariants evaluated on every reached state.",
         "trusted_base": ["hash function and split policy are arbitrary parameters of the theorems; the driver instantiates them with MurmurHash3 / the float64 load-factor test written in OCaml"],
-        "assumptions": COMMON_ASSUME + ["physical overflow-bucket offsets and the free list are abstracted (a chain owns its buckets); MaxKeys guard not modelled"],
+        "assumptions": COMMON_ASSUME + ["MaxKeys guard and uint32 wrap-around of numKeys / numBuckets not modelled; I/O errors in the middle of an index operation not modelled"],
     },
     "C02": {
         "generators": [{"name": "C02"}],
-        "explanation": "Theorems close_ok, close_reopen_ok, reopen_close_same_log over every invariant state. Tie: histories cut into sessions; full state dumps before Close, after Close, after Open compared with the model; ShapeCheck.close_order / close_syncs over the regenerated Close skeleton.",
+        "explanation": "Theorems close_ok, close_reopen_ok, reopen_close_same_log over every invariant state; sessions on the physical index (free list and bucket files across Close / Open / kill, PhysDB.phys_sessions). Tie: histories cut into sessions; full state dumps before Close, after Close, after Open compared with the model; ShapeCheck.close_order / close_syncs over the regenerated Close skeleton.",
         "assumptions": COMMON_ASSUME + ["gob encoding of metadata is abstracted to its content"],
     },
     "C03": {
@@ -35,7 +35,7 @@ PROPS = {
     },
     "C06": {
         "generators": [{"name": "C06"}],
-        "explanation": "PowerLoss.v: C06_synced_writes_survive: for every history of Put/Delete/Sync/compaction steps, every later point and every admissible power-loss image (per file: dropped or torn suffix of unsynced data), recovery succeeds and the contents are those of the last sync point followed by a prefix of the later operations; sensitivity witnesses for the two flushes it needs. Not covered by the theorem: a recovering Open inside the history (harness only). Tie: power-loss images enumerated per instant from the recorded calls and reopened, also across an earlier process crash; ShapeCheck.seal_syncs / compact_order.",
+        "explanation": "PowerLoss.v: C06_synced_writes_survive: for every history of Put/Delete/Sync/compaction steps, every later point and every admissible power-loss image (per file: dropped or torn suffix of unsynced data), recovery succeeds and the contents are those of the last sync point followed by a prefix of the later operations; sensitivity witnesses for the two flushes it needs. PowerLoss2.v: the same over histories of any number of epochs separated by process crashes (any event, torn writes), recovering Opens that may die themselves, kills and Close / reopen, with the sync point before any number of recoveries, and for a power failure in the middle of a recovering Open. Tie: power-loss images enumerated per instant from the recorded calls and reopened, also across an earlier process crash; ShapeCheck.seal_syncs / compact_order.",
         "assumptions": COMMON_ASSUME + ["power-loss model exactly as the property words it"],
     },
     "C07": {
@@ -45,13 +45,13 @@ PROPS = {
     },
     "C08": {
         "generators": [{"name": "C08"}],
-        "explanation": "Theorems over all byte strings about the validating reader (decode_next / parse_tail = segmentIterator.next driven by the recovery iterator); open_recover_ok says what recovery does with its result. Tie: byte-exact differential run of the recovering Open against the extracted reader and an independent decoder of the documented format on damaged tails.",
+        "explanation": "Theorems over all byte strings about the validating reader (decode_next / parse_tail = segmentIterator.next driven by the recovery iterator); open_recover_ok says what recovery does with its result; the length decoding and the fits-in-the-file guard of segmentIterator.next as TRANSLATED from the source equal the model's for all field values (FuncsRecordCheck.next_sizes_ok). Tie: byte-exact differential run of the recovering Open against the extracted reader and an independent decoder of the documented format on damaged tails.",
         "trusted_base": ["bufio/io.ReadFull semantics; hash/crc32 (cross-checked against Crc.v on every run)"],
         "assumptions": ["process-crash model of the property; the tail is whatever bytes follow the last complete record"],
     },
     "C09": {
         "generators": [{"name": "C09"}],
-        "explanation": "PowerLoss.v: C09_closed_is_durable (every admissible power-loss image after a completed Close is the closed directory), C09_reopen (next Open without recovery, closed contents), C09_power_loss_during_reopen. Tie: power-loss images at every call from the return of Close to the completion of the next Open, reopened; ShapeCheck.close_syncs / close_order.",
+        "explanation": "PowerLoss.v: C09_closed_is_durable (every admissible power-loss image after a completed Close is the closed directory), C09_reopen (next Open without recovery, closed contents), C09_power_loss_during_reopen; PowerLoss2.v: the same after histories of any number of epochs (C09_reopen_epochs) and a power failure DURING Close (C09_power_loss_during_close). Tie: power-loss images at every call from the return of Close to the completion of the next Open, reopened; ShapeCheck.close_syncs / close_order.",
         "assumptions": COMMON_ASSUME + ["power-loss model exactly as the property words it"],
     },
     "C10": {
@@ -72,7 +72,7 @@ PROPS = {
     },
     "C13": {
         "generators": [{"name": "C13"}],
-        "explanation": "Lock.v: transition system of the lock-file protocol at system-call granularity, any number of processes, all schedules, death at any point; mutual exclusion, holder owns path and flock, unclean shutdown always detected, loser changes nothing; refutation witnesses for the pinned protocol and for the protocol without the mark byte. Tie: schedules executed with real system calls (yield hooks) and on the extracted model; ShapeCheck.lockfile_shape.",
+        "explanation": "Lock.v: transition system of the lock-file protocol at system-call granularity, any number of processes, all schedules, death at any point; mutual exclusion, holder owns path and flock, unclean shutdown always detected, loser changes nothing; refutation witnesses for the pinned protocol and for the protocol without the mark byte. Tie: schedules executed with real system calls (yield hooks) and on the extracted model; ShapeCheck.lockfile_shape; database-level histories with fault-injected Opens; histories of Open / Close / Close-again-on-a-closed-handle on fs.OS and fs.OSMMap with the lock file identity checked after every call.",
         "assumptions": ["flock semantics (per open file description, released on close / process death); fstat+stat verification is one atomic step; deaths in the middle of an acquisition holding a descriptor are covered by the theorems only"],
     },
     "C14": {
@@ -87,22 +87,22 @@ PROPS = {
     },
     "C16": {
         "generators": [{"name": "C16"}],
-        "explanation": "put_ok for all admissible sizes, put_rejected (state untouched), get/has/delete for every key including over-long ones, limits fit the length fields (regenerated constants). Tie: boundary key and value lengths on both sides incl. restart and recovery.",
+        "explanation": "put_ok for all admissible sizes, put_rejected (state untouched), get/has/delete for every key including over-long ones, limits fit the length fields (regenerated constants); the limit tests of Put and the length fields written by encodeRecord as TRANSLATED from the source equal the model's (put_limits_ok, encode_sizes_ok). Tie: boundary key and value lengths on both sides incl. restart and recovery.",
         "assumptions": COMMON_ASSUME + ["values near 512 MiB are not run through the model (a 512 MiB byte list); the theorem covers them"],
     },
     "C17": {
         "generators": [{"name": "C17"}],
-        "explanation": "FSImpl.v: memFile, osFile, osMMapFile refine one abstract file for every admissible call sequence; the mapping is never overrun. Tie: the same programs on the harness FS, the model, fs.Mem, fs.OS, fs.OSMMap with results and segment bytes compared.",
+        "explanation": "FSImpl.v: memFile, osFile, osMMapFile refine one abstract file for every admissible call sequence; the mapping is never overrun; the size bookkeeping of osMMapFile (Slice EOF test, WriteAt size update, mremap's test and new mapping size) as TRANSLATED from the source equals FSImpl's (FuncsFSCheck.v). Tie: the same programs on the harness FS, the model, fs.Mem, fs.OS, fs.OSMMap with results and segment bytes compared.",
         "assumptions": ["kernel: pwrite/ftruncate/read semantics and coherence of a shared read-only mapping with later pwrites (trusted)"],
     },
     "C18": {
         "generators": [{"name": "C18"}],
-        "explanation": "Round-trip theorems for records, header, buckets, segment names; regenerated constants and layouts compared by the kernel; golden directories written by the pinned version opened by the current build; segments decoded by an independent reader and by the Coq reader.",
+        "explanation": "Round-trip theorems for records, header, buckets, segment names, and for the index files as byte strings (every bucket of main.pix / overflow.pix decodes from its offset, Phys.v); regenerated constants and layouts compared by the kernel; encodedRecordSize / length fields as translated from the source; golden directories written by the pinned version opened by the current build; segments decoded by an independent reader and by the Coq reader.",
         "assumptions": ["gob metadata decoded by encoding/gob (trusted)"],
     },
     "C19": {
         "generators": [{"name": "C19"}],
-        "explanation": "parse_alloc_le: for every byte string the reader allocates at most the bytes present. Tie: TotalAlloc of the recovering Open for corner and random headers.",
+        "explanation": "parse_alloc_le: for every byte string the reader allocates at most the bytes present; the guard that precedes the allocation in segmentIterator.next, as TRANSLATED from the source, is the model's for all header values, file sizes and offsets (FuncsRecordCheck.next_sizes_ok). Tie: TotalAlloc of the recovering Open for corner and random headers.",
         "assumptions": ["allocation of the index rebuild and of bufio is outside the reader model; covered by the measured bound"],
     },
 }
